@@ -12,6 +12,7 @@
    g_ovf = false /\ g_fault = false. *)
 From GV Require Import Lib.Trace Lib.Interleave Model.Wakeup
   Proofs.WakeupBase Proofs.WakeupInv Proofs.WakeupProofs Proofs.WakeupGhost Proofs.WakeupOnce.
+From GV Require Model.Loop Proofs.LoopWakeupLink.
 Open Scope Z_scope.
 Open Scope list_scope.
 
@@ -103,6 +104,200 @@ Theorem C03_wake_one_traffic : forall s, reachable wk_init wk_step s ->
      In (tk_id x, c) (g_traffic (w_gh s))).
 Proof. exact wake_one_traffic. Qed.
 Print Assumptions C03_wake_one_traffic.
+
+(* What ties the coarse wake-up bookkeeping of Model/Loop.v to the fine-grained protocol.  The
+   event-loop model (C01, C02, C04, C08, ...) keeps the two task queues and wakeupCall as the triple
+   (l_urgent, l_low, l_flag) and changes it in three atomic operations: [Loop.trigger] (Trigger on
+   the loop thread: enqueue; flag already set -> nothing, else flag := true and the loop thread
+   writes the eventfd), [Loop.apply_async] (Trigger of another goroutine: enqueue; flag := true, its
+   eventfd write invisible to the loop thread) and the end of [Loop.chores] (flag := false; a queue
+   non-empty -> flag := true and write).  Proofs/LoopWakeupLink.v ([nm] maps the tasks of the Wakeup
+   model to those of the loop model, any map; [wrep nm s st]: itemsU / itemsL / flag / threshold of s,
+   read through nm, are l_urgent / l_low / l_flag / l_thr of st; [counted s]: the length counters
+   are the queue lengths; [at_point p s]: no Trigger call in flight and the loop at epoll_wait
+   (PIdle), at the first Dequeue of a batch (PDrain), at the store of 0 (PBatchEnd); [wrel nm p s st]:
+   all three; [coarse_trigger st is_low t] = set_flag (enqueue st is_low t) true;
+   [coarse_batch_end st] = set_flag st (a queue of st is non-empty); [writes o]: the eventfd writes
+   among the observations, with thread and result; [stp t] / [start t sp]: the scheduler lets
+   thread t take one step / producer t call Trigger):
+   1. a new poller is related to a new loop-model state; in reachable states the counters come for
+      free at the three points and at the beginning of a Trigger call of the loop (C03_wake_inv, K);
+   2. each coarse operation is the schedule of the fine model in which the thread concerned runs
+      alone -- a producer: start; [load urgent.length]; link; count; CAS; [write]; the loop inside its
+      own Trigger: the same steps; the loop after a batch: store 0; load; [load]; [CAS; write] -- and
+      leads to a reachable ([wk_reachable s] is [reachable wk_init wk_step s]), sane state that
+      represents the result of the coarse operation, wherever the loop is (2a) resp. whatever the
+      other Trigger slots hold (2b, 3), provided the counters agree with the queues; the eventfd is
+      written (once, successfully; after one EAGAIN and a read when the counter is at 2^64-2)
+      exactly when the loop model writes it (Loop.trigger with the flag clear, Loop.chores with a
+      queue non-empty) or marks the flag of a request of another goroutine (flag was false), and is
+      then reported by the next epoll_wait (eff_edge); otherwise the eventfd is not touched;
+   3. idle -> about to drain is the epoll_wait that reports the eventfd;
+   4. ABOUT TO BLOCK.  Fine model: no Trigger call in flight, the loop at epoll_wait, eff_edge =
+      false (the readiness edge is not pending or the counter is 0), i.e. [quiescent]: the next loop
+      step is an epoll_wait that reports no eventfd.  Loop model: the head of an iteration of
+      [Loop.polling], whose next action is to pull a `wait` line; it has no eventfd, so "will the
+      wait report the eventfd" is the fine model's eff_edge.  In a related pair: eff_edge = false ->
+      l_urgent = l_low = [] and l_flag = false (C03_no_lost_wakeup; I1 of C03_wake_inv for the
+      flag); hence l_flag = false with a non-empty queue, or l_flag = true, never meets a blocking
+      wait: the eventfd is reported;
+   5. [Loop.trigger], [Loop.apply_async] and the end of [Loop.chores] ARE coarse_trigger /
+      coarse_batch_end on the triple, up to requests of other goroutines absorbed while the loop
+      thread waits for the result of its eventfd write ([asyncs]: zero or more apply_async), and
+      [Loop.efd_write] issues the system calls the fine model has, given the fine model's answers;
+      the loop model's own invariant "l_flag = false -> nothing queued" holds after every coarse
+      operation and is kept by the drains;
+   6. the converse direction does not hold, and is not claimed: a Trigger call of another
+      goroutine is not atomic.  [ex_late_cas] reaches an idle state with wakeupCall = 1, both queues
+      empty and the edge pending (the request was linked and counted during a batch, run in that
+      batch, and its CAS came after the loop's store of 0): after a batch the loop model always has
+      l_flag = (a queue is non-empty).  The wake-up is spurious, the requests ran exactly once. *)
+Theorem C03_loop_model_link : forall nm : task -> Loop.task,
+  (* 1. the representation relation: a new poller; the counters, from reachability (wake_inv, K) *)
+  (forall thr max st,
+     Loop.l_urgent st = [] -> Loop.l_low st = [] -> Loop.l_flag st = false -> Loop.l_thr st = thr ->
+     LoopWakeupLink.wrel nm LoopWakeupLink.PIdle (init_state thr max) st) /\
+  (forall p s st, wk_reachable s -> sane s -> LoopWakeupLink.at_point p s -> LoopWakeupLink.wrep nm s st -> LoopWakeupLink.wrel nm p s st) /\
+  (forall s x, wk_reachable s -> sane s ->
+     (forall t', t_pc (get_trig (trigs s) (S t')) = TIdle) -> c_pc (con s) = CTrig ->
+     get_trig (trigs s) O = mkTrig (pc0 (tk_spec x)) x -> LoopWakeupLink.counted s) /\
+  (* 2a. a request of another goroutine (Loop.apply_async) = one producer's Trigger, run alone *)
+  (forall s st t' sp,
+     wk_reachable s -> sane s -> LoopWakeupLink.counted s -> LoopWakeupLink.wrep nm s st ->
+     t_pc (get_trig (trigs s) (S t')) = TIdle ->
+     Loop.zlen (Loop.l_urgent st) < 2147483647 -> Loop.zlen (Loop.l_low st) < 2147483647 ->
+     exists n, let r := run wk_fstep s (LoopWakeupLink.start (S t') sp :: repeat (LoopWakeupLink.stp (S t')) n) in
+       wk_reachable (fst r) /\ sane (fst r) /\ LoopWakeupLink.counted (fst r) /\
+       LoopWakeupLink.wrep nm (fst r) (LoopWakeupLink.coarse_trigger st (negb (sp_high sp)) (nm (mkTask (g_next (w_gh s)) (S t') sp))) /\
+       con (fst r) = con s /\ w_env (fst r) = w_env s /\
+       (forall u, u <> S t' -> get_trig (trigs (fst r)) u = get_trig (trigs s) u) /\
+       get_trig (trigs (fst r)) (S t') = idle_trig /\
+       In (g_next (w_gh s)) (g_acc (w_gh (fst r))) /\
+       LoopWakeupLink.writes (List.concat (snd r)) =
+         (if Loop.l_flag st then []
+          else if efd_cnt (w_sh s) + 1 >? efd_max then [(S t', WAgain); (S t', WOk)] else [(S t', WOk)]) /\
+       (Loop.l_flag st = false -> eff_edge (w_sh (fst r)) = true) /\
+       (Loop.l_flag st = true ->
+          efd_cnt (w_sh (fst r)) = efd_cnt (w_sh s) /\ edge (w_sh (fst r)) = edge (w_sh s))) /\
+  (forall p s st t' sp,
+     wk_reachable s -> sane s -> LoopWakeupLink.wrel nm p s st ->
+     Loop.zlen (Loop.l_urgent st) < 2147483647 -> Loop.zlen (Loop.l_low st) < 2147483647 ->
+     exists n, let r := run wk_fstep s (LoopWakeupLink.start (S t') sp :: repeat (LoopWakeupLink.stp (S t')) n) in
+       wk_reachable (fst r) /\ sane (fst r) /\
+       LoopWakeupLink.wrel nm p (fst r) (LoopWakeupLink.coarse_trigger st (negb (sp_high sp)) (nm (mkTask (g_next (w_gh s)) (S t') sp))) /\
+       In (g_next (w_gh s)) (g_acc (w_gh (fst r))) /\
+       LoopWakeupLink.writes (List.concat (snd r)) =
+         (if Loop.l_flag st then []
+          else if efd_cnt (w_sh s) + 1 >? efd_max then [(S t', WAgain); (S t', WOk)] else [(S t', WOk)]) /\
+       (Loop.l_flag st = false -> eff_edge (w_sh (fst r)) = true)) /\
+  (* 2b. Trigger on the loop thread (Loop.trigger), both branches *)
+  (forall s st x,
+     wk_reachable s -> sane s -> LoopWakeupLink.counted s -> LoopWakeupLink.wrep nm s st ->
+     c_pc (con s) = CTrig -> get_trig (trigs s) O = mkTrig (pc0 (tk_spec x)) x ->
+     Loop.zlen (Loop.l_urgent st) < 2147483647 -> Loop.zlen (Loop.l_low st) < 2147483647 ->
+     exists n, let r := run wk_fstep s (repeat (LoopWakeupLink.stp O) n) in
+       wk_reachable (fst r) /\ sane (fst r) /\ LoopWakeupLink.counted (fst r) /\
+       LoopWakeupLink.wrep nm (fst r) (LoopWakeupLink.coarse_trigger st (negb (sp_high (tk_spec x))) (nm x)) /\
+       w_env (fst r) = w_env s /\
+       (forall t', get_trig (trigs (fst r)) (S t') = get_trig (trigs s) (S t')) /\
+       (t_pc (get_trig (trigs (fst r)) O) = TIdle \/
+        exists x', get_trig (trigs (fst r)) O = mkTrig (pc0 (tk_spec x')) x') /\
+       In (tk_id x) (g_acc (w_gh (fst r))) /\
+       LoopWakeupLink.writes (List.concat (snd r)) =
+         (if Loop.l_flag st then []
+          else if efd_cnt (w_sh s) + 1 >? efd_max then [(O, WAgain); (O, WOk)] else [(O, WOk)]) /\
+       (Loop.l_flag st = false -> eff_edge (w_sh (fst r)) = true) /\
+       (Loop.l_flag st = true ->
+          efd_cnt (w_sh (fst r)) = efd_cnt (w_sh s) /\ edge (w_sh (fst r)) = edge (w_sh s))) /\
+  (* 3. the end of a batch (the tail of Loop.chores) *)
+  (forall s st,
+     wk_reachable s -> sane s -> LoopWakeupLink.counted s -> LoopWakeupLink.wrep nm s st -> c_pc (con s) = CStore ->
+     exists n, let r := run wk_fstep s (repeat (LoopWakeupLink.stp O) n) in
+       wk_reachable (fst r) /\ sane (fst r) /\ LoopWakeupLink.counted (fst r) /\
+       LoopWakeupLink.wrep nm (fst r) (LoopWakeupLink.coarse_batch_end st) /\
+       c_pc (con (fst r)) = CWait /\ trigs (fst r) = trigs s /\ w_env (fst r) = w_env s /\
+       LoopWakeupLink.writes (List.concat (snd r)) =
+         (if LoopWakeupLink.queues_empty st then []
+          else if efd_cnt (w_sh s) + 1 >? efd_max then [(O, WAgain); (O, WOk)] else [(O, WOk)]) /\
+       (LoopWakeupLink.queues_empty st = false -> eff_edge (w_sh (fst r)) = true) /\
+       (LoopWakeupLink.queues_empty st = true ->
+          efd_cnt (w_sh (fst r)) = efd_cnt (w_sh s) /\ edge (w_sh (fst r)) = edge (w_sh s))) /\
+  (forall s st,
+     wk_reachable s -> sane s -> LoopWakeupLink.wrel nm LoopWakeupLink.PBatchEnd s st ->
+     exists n, let r := run wk_fstep s (repeat (LoopWakeupLink.stp O) n) in
+       wk_reachable (fst r) /\ sane (fst r) /\
+       LoopWakeupLink.wrel nm LoopWakeupLink.PIdle (fst r) (LoopWakeupLink.coarse_batch_end st) /\
+       LoopWakeupLink.writes (List.concat (snd r)) =
+         (if LoopWakeupLink.queues_empty st then []
+          else if efd_cnt (w_sh s) + 1 >? efd_max then [(O, WAgain); (O, WOk)] else [(O, WOk)]) /\
+       (LoopWakeupLink.queues_empty st = false -> eff_edge (w_sh (fst r)) = true) /\
+       (LoopWakeupLink.queues_empty st = true ->
+          efd_cnt (w_sh (fst r)) = efd_cnt (w_sh s) /\ edge (w_sh (fst r)) = edge (w_sh s))) /\
+  (* idle -> about to drain: epoll_wait reports the eventfd *)
+  (forall s st, LoopWakeupLink.wrel nm LoopWakeupLink.PIdle s st -> eff_edge (w_sh s) = true -> io_pend (w_env s) = [] ->
+     let r := run wk_fstep s [LoopWakeupLink.stp O] in
+     LoopWakeupLink.wrel nm LoopWakeupLink.PDrain (fst r) st /\ snd r = [[EvWait (c_msec (con s)) [-1]]] /\
+     eff_edge (w_sh (fst r)) = false /\
+     g_ovf (w_gh (fst r)) = g_ovf (w_gh s) /\ g_fault (w_gh (fst r)) = g_fault (w_gh s)) /\
+  (* 4. about to block (no_lost_wakeup and I1 of wake_inv, in the vocabulary of the loop model) *)
+  (forall s st,
+     wk_reachable s -> sane s -> LoopWakeupLink.wrep nm s st -> all_idle s -> c_pc (con s) = CWait ->
+     (eff_edge (w_sh s) = false ->
+        Loop.l_urgent st = [] /\ Loop.l_low st = [] /\ Loop.l_flag st = false) /\
+     (Loop.l_flag st = true \/ Loop.l_urgent st <> [] \/ Loop.l_low st <> [] -> eff_edge (w_sh s) = true)) /\
+  (* 5. the loop model performs exactly these coarse operations *)
+  (forall is_low t w,
+     Loop.trigger is_low t w =
+     if Loop.l_flag (Loop.st w)
+     then (Loop.RNil, Loop.with_st w (Loop.enqueue (Loop.st w) is_low t))
+     else Loop.efd_write (S (List.length (Loop.inp w))) (Loop.with_st w (LoopWakeupLink.coarse_trigger (Loop.st w) is_low t))) /\
+  (forall is_low t w,
+     LoopWakeupLink.asyncs (LoopWakeupLink.coarse_trigger (Loop.st w) is_low t) (Loop.st (snd (Loop.trigger is_low t w)))) /\
+  (forall s l s', Loop.apply_async s l = Some s' ->
+     exists s0 is_low t, s' = LoopWakeupLink.coarse_trigger s0 is_low t /\
+       Loop.l_urgent s0 = Loop.l_urgent s /\ Loop.l_low s0 = Loop.l_low s /\
+       Loop.l_flag s0 = Loop.l_flag s /\ Loop.l_thr s0 = Loop.l_thr s) /\
+  (forall fuel w r1 w1 r2 w2,
+     Loop.drain_urgent fuel w = (r1, w1) -> r1 <> Loop.RShutdown ->
+     Loop.drain_low fuel (Loop.l_maxlow (Loop.st w1)) w1 = (r2, w2) -> r2 <> Loop.RShutdown ->
+     Loop.chores fuel w = (Loop.RNil, LoopWakeupLink.batch_end w2)) /\
+  (forall w2, LoopWakeupLink.asyncs (LoopWakeupLink.coarse_batch_end (Loop.st w2)) (Loop.st (LoopWakeupLink.batch_end w2))) /\
+  (forall fuel w, LoopWakeupLink.asyncs (Loop.st w) (Loop.st (snd (Loop.efd_write fuel w)))) /\
+  (forall f w n rest,
+     Loop.halt w = false -> Loop.inp w = ("r"%string, [ASym "write"; AInt n]) :: rest -> 0 <= n ->
+     Loop.efd_write (S f) w =
+       (Loop.RNil, Loop.mkW (Loop.st w) rest
+          (Loop.EIn ("r"%string, [ASym "write"; AInt n]) ::
+           Loop.EOut (obs "sys" [ASym "write"; AInt (Loop.l_efd (Loop.st w))]) :: Loop.log w) false)) /\
+  (forall f w v n rest,
+     Loop.halt w = false ->
+     Loop.inp w = ("r"%string, [ASym "write"; AInt (-1); ASym "eagain"]) ::
+                  ("r"%string, [ASym "read"; AInt v]) ::
+                  ("r"%string, [ASym "write"; AInt n]) :: rest -> 0 <= n ->
+     Loop.efd_write (S (S f)) w =
+       (Loop.RNil, Loop.mkW (Loop.st w) rest
+          (Loop.EIn ("r"%string, [ASym "write"; AInt n]) ::
+           Loop.EOut (obs "sys" [ASym "write"; AInt (Loop.l_efd (Loop.st w))]) ::
+           Loop.EIn ("r"%string, [ASym "read"; AInt v]) ::
+           Loop.EOut (obs "sys" [ASym "read"; AInt (Loop.l_efd (Loop.st w))]) ::
+           Loop.EIn ("r"%string, [ASym "write"; AInt (-1); ASym "eagain"]) ::
+           Loop.EOut (obs "sys" [ASym "write"; AInt (Loop.l_efd (Loop.st w))]) :: Loop.log w) false)) /\
+  (* the loop model's own "flag clear -> nothing queued" *)
+  (forall st b t, LoopWakeupLink.flag_ok (LoopWakeupLink.coarse_trigger st b t)) /\
+  (forall st, LoopWakeupLink.flag_ok (LoopWakeupLink.coarse_batch_end st)) /\
+  (forall s s', LoopWakeupLink.asyncs s s' -> LoopWakeupLink.flag_ok s -> LoopWakeupLink.flag_ok s') /\
+  (forall st u lo, LoopWakeupLink.flag_ok st -> Loop.l_flag st = true \/ (u = [] /\ lo = []) ->
+     LoopWakeupLink.flag_ok (Loop.set_queues st u lo (Loop.l_flag st))) /\
+  (* 6. the difference: flag set with nothing queued, idle -- reachable in the fine model only *)
+  (forall st, Loop.l_flag (LoopWakeupLink.coarse_batch_end st) = negb (LoopWakeupLink.queues_empty (LoopWakeupLink.coarse_batch_end st))) /\
+  (let s := fst (run wk_fstep (init_state 1024 256) LoopWakeupLink.ex_late_cas) in
+   wk_reachable s /\ g_ovf (w_gh s) = false /\ g_fault (w_gh s) = false /\
+   map t_pc (trigs s) = [TIdle; TIdle; TIdle] /\ c_pc (con s) = CWait /\
+   flag (w_sh s) = 1 /\ itemsU (w_sh s) = [] /\ itemsL (w_sh s) = [] /\
+   lenU (w_sh s) = 0 /\ lenL (w_sh s) = 0 /\ eff_edge (w_sh s) = true /\
+   map (fun e => tk_id (snd e)) (g_exec (w_gh s)) = [0%nat; 1%nat] /\ g_acc (w_gh s) = [0%nat; 1%nat]).
+Proof. exact LoopWakeupLink.loop_wakeup_link. Qed.
+Print Assumptions C03_loop_model_link.
 
 (* ---- non-vacuity: concrete schedules, evaluated by the kernel ---- *)
 Definition hi : tspec := mkSpec true KPlain false O.
